@@ -212,6 +212,8 @@ m('C10', P, 'return balancer.PickResult{SubConn: scRef.getSubConn(), Done: callb
 m('C10', B, 'func (ref *subConnRef) getLastResp() time.Time {\n\tref.mu.RLock()\n\tdefer ref.mu.RUnlock()\n', 'func (ref *subConnRef) getLastResp() time.Time {\n', 'getter without the lock')
 m('C07', P, '\tif scRef.deCallsInc() >= p.gb.cfg.GetChannelPool().GetUnresponsiveCalls() &&\n\t\tscRef.getLastResp().Before(', '\tlr := scRef.getLastResp()\n\tif scRef.deCallsInc() >= p.gb.cfg.GetChannelPool().GetUnresponsiveCalls() &&\n\t\tlr.Before(', 'last-response time read into a local first', 'silent')
 m('C19', CS, '\tlog.Printf("Marshalled bytes: %+v\\n", bytes)', '\tlog.Printf("Marshalled bytes: %+v\\n", append(bytes[:0], bytes...))', 'payload used as an append destination (in-place rewrite of the wrapped encoding)')
+m('C07', B, 'gb.unresponsiveDetection = cp.GetUnresponsiveCalls() > 0 && cp.GetUnresponsiveDetectionMs() > 0', 'gb.unresponsiveDetection = !(cp.GetUnresponsiveCalls() == 0 && cp.GetUnresponsiveDetectionMs() == 0)', 'detection enabled with only one threshold configured (seed C07 wave 2)')
+m('C07', B, 'gb.unresponsiveDetection = cp.GetUnresponsiveCalls() > 0 && cp.GetUnresponsiveDetectionMs() > 0', 'gb.unresponsiveDetection = !(cp.GetUnresponsiveCalls() == 0 || cp.GetUnresponsiveDetectionMs() < 1)', 'enable condition by De Morgan', 'silent')
 
 json.dump(T, open('/verif/checker/mutants.json', 'w'), indent=0)
 print(len(T), 'mutants')
